@@ -79,6 +79,8 @@ STRENGTHENED = {
     "C15-w5m2": "a universe of 300 members with links among the members beyond position 256",
     "C16-w5m2": "a render function that raises (also a StopIteration) at its k-th invocation: the render must raise or return the COMPLETE text",
     "C17-w5m2": "argument tuples 13 / 14: a call with a keyword and a keyword-free call whose two positional arguments look like its key (key table now 338 rows)",
+    "C13-w5m1": "filter callables that cannot be hashed (numbers 5 mod 13; model `M.unhashable`, theorem `C05_unhashable_never_cached`) — which exposed "
+                "defect D18 of the unchanged tree (repaired by F14)",
     "C17-w5m1": "pool class 6: a semi-singleton class whose metaclass DERIVES from the generated one (combined with ABCMeta); it shares that metaclass's instance map",
     "C18-w5m1": "pool class 3: a true-singleton class whose metaclass derives from TrueSingleton",
     "C20-w5m1": "an edge class with a constructor of its own that takes the two ends and an option, no `**kwargs` (pool class DD)",
@@ -100,7 +102,6 @@ MISSED_NOTE = {
     "C07-w5m2": "missed by the QUICK tier: needs a pending DFS stack above 65536 entries; the THOROUGH tier of C06 / C07 now builds the complete "
                 "graph on 262 vertices (the model needs 95 s for it) on which the changed code lists a different order (verified by hand)",
     "C11-w5m1": "known gap: needs an un-pickled copy, the original garbage-collected, and the allocator re-using one of its addresses for a new link",
-    "C13-w5m1": "known gap: needs an UNHASHABLE callable as filter with caching on (the unchanged code raises TypeError there; not in the model)",
     "C18-w5m2": "known gap: needs a singleton class whose `__new__` returns ANOTHER live singleton (an alias class)",
     "C19-w5m1": "known gap: needs a universe that only its law set refers to (the harness keeps every universe alive in its pool)",
     "C20-w5m2": "known gap: needs an edge type that is itself a semi-singleton, or whose constructor needs its ends",
